@@ -222,6 +222,15 @@ func (m *callerMem) snapshot() {
 	m.boolSnap = [4]int8{optBoolVal(o.DedupValue), optBoolVal(o.InnerPrefix), optBoolVal(o.LeafPrefix), optBoolVal(o.Complete)}
 }
 
+// cost: bytes compared by one evaluation of check().
+func (m *callerMem) cost() int64 {
+	c := int64(len(m.arena)) + 64*int64(cap(m.keys))
+	for _, k := range m.keysSnap {
+		c += int64(len(k))
+	}
+	return c
+}
+
 func (m *callerMem) check() string {
 	all := m.keys[:cap(m.keys)]
 	for i, k := range all {
@@ -278,8 +287,23 @@ func executeC20(scn *Scenario) *RunResult {
 	var monitorEvals, yieldsInside int64
 
 	// monitored runs f with a hook that evaluates chk at yields inside f.
-	monitored := func(what string, chk func() string, f func()) {
-		var n int64
+	// A monitor evaluation costs `cost` byte comparisons (the whole of the
+	// caller memory it guards). The sampling period starts at `every` and
+	// doubles each time a quarter of the evaluation budget of the call is
+	// used up, so one call never spends more than about 4x10^9 byte
+	// comparisons on monitoring, whatever its length: a deterministic function
+	// of the yield count, never of wall-clock time.
+	monitored := func(what string, cost int64, chk func() string, f func()) {
+		var n, next, evalsHere int64
+		period := int64(every)
+		next = period
+		if cost < 1 {
+			cost = 1
+		}
+		quarter := 1_000_000_000 / cost
+		if quarter < 16 {
+			quarter = 16
+		}
 		xsimrt.Hook = func(site int) {
 			n++
 			liveTicks++
@@ -287,7 +311,12 @@ func executeC20(scn *Scenario) *RunResult {
 			if n > 2_000_000_000 {
 				panic(abortUnit{"stepcap"})
 			}
-			if n%int64(every) == 0 {
+			if n == next {
+				evalsHere++
+				if evalsHere%quarter == 0 {
+					period *= 2
+				}
+				next = n + period
 				monitorEvals++
 				if bad := chk(); bad != "" {
 					fail("caller-memory-modified-during-call", what, fmt.Sprintf("%s on %s: at yield %d (%s) inside the call: %s", what, c.id(), n, siteName(site), bad), "", "", n)
@@ -315,7 +344,7 @@ func executeC20(scn *Scenario) *RunResult {
 		m := newCallerMem(c.Spec)
 		var st *trie.SlimTrie
 		var err error
-		monitored("NewSlimTrie", m.check, func() {
+		monitored("NewSlimTrie", m.cost(), m.check, func() {
 			st, err = trie.NewSlimTrie(encoderOf(c.Spec.Enc), m.keys, m.vals, m.opts...)
 		})
 		res.Counters["fault.monitor_at_yield_inside_build"] += monitorEvals
@@ -469,7 +498,7 @@ func executeC20(scn *Scenario) *RunResult {
 			st := mkInst()
 			var lerr error
 			var lpan string
-			monitored("Unmarshal", pb.Check, func() { lerr, lpan = loadVia(st, c.Entry, pb.Buf) })
+			monitored("Unmarshal", int64(len(pb.arena)), pb.Check, func() { lerr, lpan = loadVia(st, c.Entry, pb.Buf) })
 			res.Counters["fault.monitor_at_yield_inside_load"] += monitorEvals
 			if bad := pb.Check(); bad != "" {
 				fail("input-modified", "Unmarshal", fmt.Sprintf("Unmarshal of %s modified its input buffer: %s", c.id(), bad), "", "", 0)
@@ -500,9 +529,19 @@ func executeC20(scn *Scenario) *RunResult {
 			pb := newPoolBuf(stream, 64)
 			insts := []*trie.SlimTrie{mkInst(), mkInst()}
 			loaded := [2]bool{}
+			dlPeriod, dlNext, dlEvals := int64(every), int64(every), int64(0)
+			dlQuarter := 1_000_000_000 / int64(len(pb.arena)+1)
+			if dlQuarter < 16 {
+				dlQuarter = 16
+			}
 			sim.monitors = append(sim.monitors, func(site int) {
 				yieldsInside++
-				if yieldsInside%int64(every) == 0 {
+				if yieldsInside == dlNext {
+					dlEvals++
+					if dlEvals%dlQuarter == 0 {
+						dlPeriod *= 2
+					}
+					dlNext = yieldsInside + dlPeriod
 					monitorEvals++
 					if bad := pb.Check(); bad != "" && viol == nil {
 						fail("caller-memory-modified-during-call", "Unmarshal", fmt.Sprintf("dualload %s: while two loaders read the same buffer, at %s: %s", c.id(), siteName(site), bad), "", "", sim.steps)
@@ -557,7 +596,7 @@ func executeC20(scn *Scenario) *RunResult {
 				return res
 			}
 			var out1 []byte
-			monitored("Marshal", func() string { return "" }, func() { out1, _ = st.Marshal() })
+			monitored("Marshal", 1, func() string { return "" }, func() { out1, _ = st.Marshal() })
 			if !bytes.Equal(out1, refBytes) {
 				res.Skipped = "marshal_differs_from_twin_before_any_fault"
 				return res
